@@ -383,7 +383,8 @@ func (c *compiler) checkLR0() {
 }
 
 func (c *compiler) addShift(from, to *state) {
-	if len(from.shifts) == 0 && len(from.reduce) > 0 {
+	if len(from.reduce) > 0 && (len(from.shifts) == 0 || int(to.symbol) < c.grammar.Terminals) {
+		// Note: a state that can both reduce and shift a terminal (end-of-input) needs lookahead.
 		from.lr0 = false
 	}
 	from.shifts = append(from.shifts, to.index)
